@@ -30,6 +30,7 @@ partial def step (toks : List String) : String :=
   -- the bond helpers are the same model with `value_for_bond` as mapper
   | "bond" :: rest => step ("custom" :: rest)
   -- real generic sampler: the table holds the observables on the sampled states; first the number of observables
+  | ["isingbond", T, f, table, _edges] => step ["genbond", T, f, table]
   | ["genbond", _T, _f, table] =>
     let samples := if table == "-" then [] else parseTable table
     s!"{nObs samples} {render samples}"
